@@ -29,6 +29,7 @@ type vfCall struct {
 	op       string // Read | Write | Accept
 	startAt  time.Duration
 	dlBefore time.Duration // deadline set by the caller itself before the call (0 = none; negative = in the past)
+	bufSize  int           // Read buffer size (0 = 64)
 	// expectation
 	want      string        // data | ok | timeout | closed | error | session
 	alt       string        // acceptable alternative (ties)
@@ -54,6 +55,7 @@ type vfC13Scn struct {
 	calls  []vfCall
 	events []vfEv
 	sndWnd int
+	fec    bool     // the session uses FEC 2/1
 	pre    []string // actions before the callers start
 }
 
@@ -93,6 +95,12 @@ func vfC13Scenarios() []vfC13Scn {
 		{name: "Read/two-readers-one-datagram", target: "session", calls: []vfCall{R(0, 0, "data", 20*ms, 20*ms+slack), R(0, 0, "data", 20*ms, 20*ms+slack)}, events: []vfEv{{20 * ms, "data2", 0}}},
 		{name: "Read/three-readers-one-datagram-then-close", target: "session", calls: []vfCall{R(0, 0, "data", 20*ms, 20*ms+slack), R(0, 0, "data", 20*ms, 20*ms+slack), {op: "Read", want: "closed", notBefore: 40 * ms, notAfter: 40*ms + slack}},
 			events: []vfEv{{20 * ms, "data2", 0}, {40 * ms, "Close", 0}}},
+		{name: "Read/three-readers-small-buffers-two-messages", target: "session", calls: []vfCall{{op: "Read", bufSize: 4, want: "data", notBefore: 20 * ms, notAfter: 20*ms + slack}, {op: "Read", bufSize: 4, want: "data", notBefore: 20 * ms, notAfter: 20*ms + slack},
+			{op: "Read", bufSize: 4, want: "data", notBefore: 20 * ms, notAfter: 20*ms + slack}}, events: []vfEv{{20 * ms, "data2", 0}}},
+		{name: "Read/fec-recovered-data-wakes-reader", target: "session", fec: true, calls: []vfCall{R(0, 0, "data", 10*ms, 10*ms+slack), R(15*ms, 0, "data", 30*ms, 30*ms+slack)},
+			events: []vfEv{{10 * ms, "fec-data1", 0}, {30 * ms, "fec-parity-only", 0}}},
+		{name: "Read/fec-recovered-data-two-readers", target: "session", fec: true, calls: []vfCall{R(0, 0, "data", 10*ms, 30*ms+slack), R(0, 0, "data", 10*ms, 30*ms+slack)},
+			events: []vfEv{{10 * ms, "fec-data1", 0}, {30 * ms, "fec-parity-only", 0}}},
 		{name: "Read/after-close-drains-then-fails", target: "session", pre: []string{"data1", "settle", "Close"}, calls: []vfCall{R(0, 0, "data", 0, far), R(5*ms, 0, "closed", 5*ms, 5*ms+slack)}},
 		// ---- Write (send window 2, two segments already outstanding)
 		{name: "Write/window-opens", target: "session", sndWnd: 2, pre: []string{"fill"}, calls: []vfCall{W(0, 0, "ok", 20*ms, 35*ms)}, events: []vfEv{{20 * ms, "ack1", 0}}},
@@ -166,7 +174,9 @@ func vfC13Run(sc vfC13Scn, async bool) explore.RunFunc {
 			var lis *Listener
 			vrt.Daemons(func() {
 				SystemTimedSched = NewTimedSched(1)
-				if sc.target == "session" {
+				if sc.target == "session" && sc.fec {
+					sess, _ = NewConn3(vfConv, laddr, nil, 2, 1, csock)
+				} else if sc.target == "session" {
 					sess, _ = NewConn3(vfConv, laddr, nil, 0, 0, csock)
 				} else {
 					lis, _ = ServeConn(nil, 0, 0, lsock)
@@ -185,8 +195,29 @@ func vfC13Run(sc vfC13Scn, async bool) explore.RunFunc {
 				}
 				return vrt.Epoch0.Add(now() + d)
 			}
+			// the peer's FEC group: two data packets and one parity packet from a real encoder
+			var fecPkts [][]byte
+			if sc.fec {
+				enc := newFECEncoder(2, 1, 0)
+				enc.tsLatestPacket = vrt.Now().UnixMilli()
+				for i, m := range [][]byte{vfPush(0, []byte("first")), vfPush(1, []byte("second"))} {
+					b := make([]byte, fecHeaderSizePlus2+len(m), 1500)
+					copy(b[fecHeaderSizePlus2:], m)
+					ps := enc.encode(b, maxFECEncodeLatency)
+					fecPkts = append(fecPkts, append([]byte(nil), b...))
+					if i == 1 {
+						for _, x := range ps {
+							fecPkts = append(fecPkts, append([]byte(nil), x...))
+						}
+					}
+				}
+			}
 			act := func(what string, d time.Duration) {
 				switch what {
+				case "fec-data1":
+					csock.inject(laddr, fecPkts[0])
+				case "fec-parity-only": // the second data packet is lost; parity lets the receiver rebuild it
+					csock.inject(laddr, fecPkts[2])
 				case "data1":
 					csock.inject(laddr, vfPush(0, []byte("first")))
 				case "data1b":
@@ -270,7 +301,11 @@ func vfC13Run(sc vfC13Scn, async bool) explore.RunFunc {
 					var n int
 					switch c.op {
 					case "Read":
-						buf := make([]byte, 64)
+						bs := 64
+						if c.bufSize > 0 {
+							bs = c.bufSize
+						}
+						buf := make([]byte, bs)
 						n, err = sess.Read(buf)
 						if err == nil && n > 0 {
 							c.got = "data"
@@ -328,7 +363,7 @@ func vfC13Run(sc vfC13Scn, async bool) explore.RunFunc {
 				if k == len(perm) {
 					nbad, clause, msg, idx := 0, "", "", 0
 					for i := range calls {
-						if calls[i].op != sc.calls[perm[i]].op || calls[i].startAt != sc.calls[perm[i]].startAt || calls[i].dlBefore != sc.calls[perm[i]].dlBefore {
+						if calls[i].op != sc.calls[perm[i]].op || calls[i].startAt != sc.calls[perm[i]].startAt || calls[i].dlBefore != sc.calls[perm[i]].dlBefore || calls[i].bufSize != sc.calls[perm[i]].bufSize {
 							nbad += 100 // only callers that made the same call are interchangeable
 							continue
 						}
